@@ -132,6 +132,8 @@ def _fixed(body_decls, body_stmts, name="probe.c"):
 KNOWN_CONSTRUCTS = {
     "C01|construct:fptr-typedef-ret": _fixed(["\tsize_t\t(*f)(int);"], ["\tf = NULL;"]),
     "C01|construct:typedef-cast-tilde": _fixed(["\tint\ti;"], ["\ti = (size_t)~a;"]),
+    "C01|construct:global-fptr-no-init": ("probe2.c", "\n".join(__import__("nv.header42", fromlist=["x"]).render(dict(__import__("nv.header42", fromlist=["x"]).DEFAULT, file="probe2.c")))
+                                                + "\n\nstatic int\t(*g_hook)(int);\n\nint\tft_probe(void)\n{\n\treturn (0);\n}\n"),
     "C01|construct:cast-paren-mult": _fixed(["\tint\ti;"], ["\ti = (int)(a) * j;"]),
 }
 
